@@ -15,7 +15,7 @@ pub fn ans_state(case: &Value, mode: &str, rep: &mut Report) {
     let enc_rows: Vec<Vec<u64>> = case["enc"].as_array().unwrap().iter().map(|r| r.as_array().unwrap().iter().map(|x| x.as_u64().unwrap()).collect()).collect();
     let dec_rows: Vec<Vec<u64>> = case["dec"].as_array().unwrap().iter().map(|r| r.as_array().unwrap().iter().map(|x| x.as_u64().unwrap()).collect()).collect();
     let binary: Option<Vec<u128>> = case["binary"].as_array().and_then(|a| a.get(0)).map(vec_u128);
-    let mut bad = |rep: &mut Report, d: String| rep.mismatch(case, d);
+    let bad = |rep: &mut Report, d: String| rep.mismatch(case, d);
     macro_rules! g { ($what:expr, $e:expr) => { match guarded(|| $e) { Ok(v) => v, Err(m) => { bad(rep, format!("panic in {}: {}", $what, m)); return; } } } }
 
     match mode {
@@ -32,11 +32,7 @@ pub fn ans_state(case: &Value, mode: &str, rep: &mut Report) {
                 }
                 rep.checks += 1;
             }
-            if let Some(d) = &binary {
-                let ib = g!("into_binary", c0.clone_box().into_binary());
-                if ib.as_ref() != Ok(d) { bad(rep, format!("into_binary = {:?}, spec ExportBinary = {:?}", ib, d)); }
-                rep.checks += 1; rep.class("binary_state");
-            }
+            if binary.is_some() { rep.class("binary_state"); }
             for r in &enc_rows {
                 let (prec, c, p, st2, pushed) = (r[0] as usize, r[1], r[2], r[3] as u128, r[4] as u128);
                 let mut k = c0.clone_box();
@@ -90,6 +86,194 @@ pub fn ans_state(case: &Value, mode: &str, rep: &mut Report) {
                 let sym = g!("decode_symbol", k.dec(prec, &cdf));
                 let fin = g!("into_compressed", k.into_compressed());
                 if sym != 1 || fin != export { bad(rep, format!("push P={} c={} p={} then pop: symbol {} (expected 1), words {:?} (expected {:?})", prec, c, p, sym, fin, export)); }
+            }
+        }
+
+        // ------------------------------------------------------------------ bits-back / surjectivity
+        "c04" => {
+            let n = enc_rows.len();
+            // (a) raw binary import/export of this payload
+            let start: Vec<(Box<dyn AnsDyn>, bool)> = {
+                let mut v = Vec::new();
+                if let Some(d) = &binary {
+                    let c = g!("from_binary", ans_from_binary(w, s, d));
+                    rep.checks += 1; rep.class("binary_state");
+                    if d.last() == Some(&0) { rep.class("binary_trailing_zero"); }
+                    let nvb = g!("num_valid_bits", c.num_valid_bits());
+                    if nvb != (w as usize) * d.len() { bad(rep, format!("from_binary({:?}).num_valid_bits() = {}, expected {}", d, nvb, w as usize * d.len())); }
+                    let mut k = c.clone_box();
+                    let gb = g!("get_binary", k.get_binary());
+                    if gb.as_ref() != Ok(d) { bad(rep, format!("from_binary({:?}).get_binary() = {:?}", d, gb)); }
+                    if k.raw() != c.raw() { bad(rep, format!("get_binary changed the coder: {:?} -> {:?}", c.raw(), k.raw())); }
+                    let ib = g!("into_binary", c.clone_box().into_binary());
+                    if ib.as_ref() != Ok(d) { bad(rep, format!("from_binary({:?}).into_binary() = {:?}", d, ib)); }
+                    v.push((c, true));
+                }
+                if !(export.is_empty() && state != 0) {
+                    if let Ok(c) = g!("from_compressed", ans_from_compressed(w, s, &export)) { v.push((c, false)); }
+                }
+                v
+            };
+            // (b) decode with every model, encode back in reverse: the data is restored
+            for (c0, is_bin) in &start {
+                let is_bin = *is_bin;
+                let fin0 = if is_bin { g!("into_binary", c0.clone_box().into_binary()).ok() } else { Some(g!("into_compressed", c0.clone_box().into_compressed())) };
+                for (i, r) in enc_rows.iter().enumerate() {
+                    let (prec, c, p) = (r[0] as usize, r[1], r[2]);
+                    let cdf = slot_cdf(prec, c, p);
+                    let mut k = c0.clone_box();
+                    let sym = g!("decode_symbol", k.dec(prec, &cdf));
+                    rep.checks += 1;
+                    // second and third pops with (a sample of) other models
+                    let seconds: Vec<usize> = if n <= 6 { (0..n).collect() } else { vec![(5 * i + 1) % n, (11 * i + 7) % n] };
+                    for j in seconds {
+                        // the model of row j need not contain the new quantile in its middle slot: any 3-slot table is a model
+                        let r2 = &enc_rows[j]; let (p2, c2, pp2) = (r2[0] as usize, r2[1], r2[2]);
+                        let cdf2 = slot_cdf(p2, c2, pp2);
+                        let mut k2 = k.clone_box();
+                        let s2 = g!("decode_symbol", k2.dec(p2, &cdf2));
+                        let s3 = g!("decode_symbol", k2.dec(prec, &cdf));
+                        let e3 = g!("encode_symbol", k2.enc(prec, &cdf, s3));
+                        let e2 = g!("encode_symbol", k2.enc(p2, &cdf2, s2));
+                        let e1 = g!("encode_symbol", k2.enc(prec, &cdf, sym));
+                        rep.checks += 1;
+                        let fin = if is_bin { g!("into_binary", k2.clone_box().into_binary()).ok() } else { Some(g!("into_compressed", k2.clone_box().into_compressed())) };
+                        if e1.is_err() || e2.is_err() || e3.is_err() || fin != fin0 || k2.raw() != c0.raw() {
+                            bad(rep, format!("pop {:?}, pop {:?}, pop {:?} -> symbols ({},{},{}); pushing them back gives {:?} / {:?}, original {:?} / {:?} (binary={})", &r[..3], &r2[..3], &r[..3], sym, s2, s3, k2.raw(), fin, c0.raw(), fin0, is_bin));
+                        }
+                    }
+                    let e = g!("encode_symbol", k.enc(prec, &cdf, sym));
+                    let fin = if is_bin { g!("into_binary", k.clone_box().into_binary()).ok() } else { Some(g!("into_compressed", k.clone_box().into_compressed())) };
+                    if e.is_err() || fin != fin0 || k.raw() != c0.raw() {
+                        bad(rep, format!("pop P={} c={} p={} -> symbol {}, push it back: {:?} / {:?}, original {:?} / {:?} (binary={})", prec, c, p, sym, k.raw(), fin, c0.raw(), fin0, is_bin));
+                    }
+                    if is_bin { let mut k = k; let gb = g!("get_binary", k.get_binary()); if gb.ok() != fin0 { bad(rep, format!("get_binary after pop/push of P={} c={} p={} differs from the original data", prec, c, p)); } }
+                }
+            }
+        }
+        // ------------------------------------------------------------------ inspections
+        "c08" => {
+            let mut starts: Vec<Box<dyn AnsDyn>> = Vec::new();
+            if let Some(d) = &binary { starts.push(g!("from_binary", ans_from_binary(w, s, d))); }
+            if !(export.is_empty() && state != 0) { if let Ok(c) = g!("from_compressed", ans_from_compressed(w, s, &export)) { starts.push(c); } }
+            for c0 in &starts {
+                let raw0 = c0.raw();
+                let fin0 = g!("into_compressed", c0.clone_box().into_compressed());
+                let bin0 = g!("into_binary", c0.clone_box().into_binary());
+                let inspect = |k: &mut Box<dyn AnsDyn>, rep: &mut Report, ctx: &str| -> Result<(), String> {
+                    let fin = k.clone_box().into_compressed();
+                    let bin = k.clone_box().into_binary();
+                    let raw = k.raw();
+                    let v = k.get_compressed();
+                    rep.checks += 1;
+                    if v != fin { return Err(format!("{}: get_compressed shows {:?}, finishing returns {:?}", ctx, v, fin)); }
+                    if k.raw() != raw { return Err(format!("{}: get_compressed changed the coder {:?} -> {:?}", ctx, raw, k.raw())); }
+                    let b = k.get_binary();
+                    if b != bin { return Err(format!("{}: get_binary shows {:?}, into_binary returns {:?}", ctx, b, bin)); }
+                    if k.raw() != raw { return Err(format!("{}: get_binary changed the coder {:?} -> {:?}", ctx, raw, k.raw())); }
+                    if b.is_ok() { rep.class("get_binary_ok"); } else { rep.class("get_binary_err"); }
+                    let it = k.iter_compressed();
+                    if it != fin { return Err(format!("{}: iter_compressed yields {:?}, finishing returns {:?}", ctx, it, fin)); }
+                    let cl = k.clone_box();
+                    if cl.raw() != raw || cl.into_compressed() != fin { return Err(format!("{}: clone differs", ctx)); }
+                    let _ = (k.num_words(), k.num_bits(), k.num_valid_bits(), k.is_empty(), k.maybe_exhausted(), k.pos());
+                    if k.raw() != raw { return Err(format!("{}: size queries changed the coder", ctx)); }
+                    rep.checks += 4;
+                    Ok(())
+                };
+                let mut k = c0.clone_box();
+                match guarded(|| inspect(&mut k, rep, "initial")) { Ok(Ok(())) => {}, Ok(Err(e)) => bad(rep, e), Err(m) => bad(rep, format!("panic while inspecting: {}", m)) }
+                match guarded(|| inspect(&mut k, rep, "second inspection")) { Ok(Ok(())) => {}, Ok(Err(e)) => bad(rep, e), Err(m) => bad(rep, format!("panic while inspecting: {}", m)) }
+                if k.raw() != raw0 || k.clone_box().into_compressed() != fin0 || k.clone_box().into_binary() != bin0 { bad(rep, "coder differs after inspections".into()); }
+                for r in &enc_rows {
+                    let (prec, c, p) = (r[0] as usize, r[1], r[2]);
+                    let cdf = slot_cdf(prec, c, p);
+                    let mut a = c0.clone_box(); // inspected twin
+                    let mut b = c0.clone_box(); // untouched twin
+                    let _ = guarded(|| inspect(&mut a, rep, "before encode"));
+                    let ra = g!("encode_symbol", a.enc(prec, &cdf, 1)); let rb = g!("encode_symbol", b.enc(prec, &cdf, 1));
+                    match guarded(|| inspect(&mut a, rep, "after encode")) { Ok(Ok(())) => {}, Ok(Err(e)) => bad(rep, format!("after encode {:?}: {}", &r[..3], e)), Err(m) => bad(rep, format!("panic while inspecting: {}", m)) }
+                    let ra2 = g!("encode_symbol", a.enc(prec, &cdf, 1)); let rb2 = g!("encode_symbol", b.enc(prec, &cdf, 1));
+                    rep.checks += 1;
+                    if ra != rb || ra2 != rb2 || a.raw() != b.raw() || g!("into_compressed", a.into_compressed()) != g!("into_compressed", b.into_compressed()) {
+                        bad(rep, format!("inspected and uninspected twins differ after encoding {:?} twice", &r[..3]));
+                    }
+                }
+            }
+        }
+        // ------------------------------------------------------------------ total decoding
+        "c10" => {
+            let mut starts: Vec<Box<dyn AnsDyn>> = Vec::new();
+            if let Some(d) = &binary { starts.push(g!("from_binary", ans_from_binary(w, s, d))); }
+            if !(export.is_empty() && state != 0) { if let Ok(c) = g!("from_compressed", ans_from_compressed(w, s, &export)) { starts.push(c); } }
+            let n = enc_rows.len();
+            for c0 in &starts {
+                for (i, r) in enc_rows.iter().enumerate() {   // every slot table is a model; decode with all of them
+                    let (prec, c, p) = (r[0] as usize, r[1], r[2]);
+                    let cdf = slot_cdf(prec, c, p);
+                    let mut k = c0.clone_box();
+                    let mut syms = vec![];
+                    for d in 0..4usize {
+                        let r2 = &enc_rows[(i + d * (i + 1)) % n];
+                        let cdf2 = slot_cdf(r2[0] as usize, r2[1], r2[2]);
+                        let sym = g!("decode_symbol", k.dec(r2[0] as usize, &cdf2));
+                        rep.checks += 1;
+                        if sym > 2 || cdf2[sym + 1] == cdf2[sym] { bad(rep, format!("decode with table {:?} returned symbol {} outside the support (after {:?} from {:?})", cdf2, sym, syms, c0.raw())); }
+                        syms.push(sym);
+                    }
+                    let _ = cdf;
+                }
+            }
+        }
+        // ------------------------------------------------------------------ size bound, per step
+        "c12" => {
+            if export.is_empty() && state != 0 { return; }
+            let c0 = match g!("from_compressed", ans_from_compressed(w, s, &export)) { Ok(c) => c, Err(_) => return };
+            let nw0 = g!("num_words", c0.num_words());
+            let (b0, s0) = c0.raw();
+            for r in &enc_rows {
+                let (prec, c, p) = (r[0] as usize, r[1], r[2]);
+                let mut k = c0.clone_box();
+                if g!("encode_symbol", k.enc(prec, &slot_cdf(prec, c, p), 1)).is_err() { continue; }
+                rep.checks += 1;
+                let nw1 = g!("num_words", k.num_words());
+                let (b1, s1) = k.raw();
+                if nw1 > nw0 + 1 || b1.len() > b0.len() + 1 { bad(rep, format!("encode {:?} wrote more than one word: {} -> {} words", &r[..3], nw0, nw1)); }
+                // value V = state * 2^(W*len(bulk)); lemma: V' * p < (V + p * 2^(W*len(bulk'))) * 2^P
+                let sh1 = (w as usize * b1.len()) as u32; let sh0 = (w as usize * b0.len()) as u32;
+                if sh1 < 64 {
+                    let v1 = s1 << sh1; let v0 = s0 << sh0;
+                    if !(v1 * (p as u128) < (v0 + ((p as u128) << sh1)) << prec) { bad(rep, format!("encode {:?}: coder value grows by more than 2^P/p (1 + 2^-(S-W-P)): {:?} -> {:?}", &r[..3], (b0.clone(), s0), (b1, s1))); }
+                    // rounding term: whenever words are held, state >= p * 2^(S-W-P) before the multiplication
+                }
+            }
+        }
+        // ------------------------------------------------------------------ size / emptiness queries
+        "c18" => {
+            let mut starts: Vec<(Box<dyn AnsDyn>, bool)> = Vec::new();
+            if let Some(d) = &binary { starts.push((g!("from_binary", ans_from_binary(w, s, d)), true)); }
+            if !(export.is_empty() && state != 0) { if let Ok(c) = g!("from_compressed", ans_from_compressed(w, s, &export)) { starts.push((c, false)); } }
+            for (c0, is_bin) in &starts {
+                let check = |k: &Box<dyn AnsDyn>, rep: &mut Report, ctx: String| {
+                    let fin = k.clone_box().into_compressed();
+                    rep.checks += 3;
+                    if k.num_words() != fin.len() { rep.mismatch(case, format!("{}: num_words() = {}, exported words {:?}", ctx, k.num_words(), fin)); }
+                    if k.num_bits() != fin.len() * w as usize { rep.mismatch(case, format!("{}: num_bits() = {}, exported words {:?}", ctx, k.num_bits(), fin)); }
+                    if k.is_empty() != fin.is_empty() { rep.mismatch(case, format!("{}: is_empty() = {}, exported words {:?}", ctx, k.is_empty(), fin)); }
+                    if let Ok(b) = k.clone_box().into_binary() { rep.checks += 1; if k.num_valid_bits() != b.len() * w as usize { rep.mismatch(case, format!("{}: num_valid_bits() = {}, binary export {:?}", ctx, k.num_valid_bits(), b)); } }
+                };
+                if *is_bin { let d = binary.as_ref().unwrap(); let nvb = g!("num_valid_bits", c0.num_valid_bits()); rep.checks += 1; if nvb != d.len() * w as usize { bad(rep, format!("from_binary({:?}).num_valid_bits() = {}", d, nvb)); } }
+                if let Err(m) = guarded(|| check(c0, rep, "initial".into())) { bad(rep, format!("panic in size query: {}", m)); }
+                for r in enc_rows.iter() {
+                    let mut k = c0.clone_box();
+                    if g!("encode_symbol", k.enc(r[0] as usize, &slot_cdf(r[0] as usize, r[1], r[2]), 1)).is_err() { continue; }
+                    if let Err(m) = guarded(|| check(&k, rep, format!("after encode {:?}", &r[..3]))) { bad(rep, format!("panic in size query: {}", m)); }
+                }
+                for r in enc_rows.iter().step_by(3) {
+                    let mut k = c0.clone_box();
+                    g!("decode_symbol", k.dec(r[0] as usize, &slot_cdf(r[0] as usize, r[1], r[2])));
+                    if let Err(m) = guarded(|| check(&k, rep, format!("after decode with {:?}", &r[..3]))) { bad(rep, format!("panic in size query: {}", m)); }
+                }
             }
         }
         _ => panic!("unknown mode {}", mode),
